@@ -812,3 +812,118 @@ Section Same.
     - intros acc p G. eexists. split; [reflexivity|]. unfold poly_mul. apply naive_multiply_good; [exact G|exact Hl|reflexivity].
   Qed.
 End Same.
+
+(* ------------------------------------------------------------------ batch products: the chunks-of-two loop and the
+   thread-count dependent chunking terminate and return the product of the list, for ANY pairwise product `mult`
+   that is total and correct on operands whose stored lengths sum to at most `B` (B bounds the NTT domain). *)
+Section Batch.
+  Context {F K : Type} (o : fops F) (fk : fieldK K) (ok : F -> Prop) (den : F -> K).
+  Hypothesis H : field_ok o fk ok den.
+  Local Notation D := (map den).
+  Local Notation okl := (Forall ok).
+  Local Notation peq := (peq fk).
+  Local Notation pmul := (pmul fk).
+  Local Notation pprod := (pprod fk).
+
+  Definition total_len (ps : list (list F)) : Z := fold_right (fun p s => (zlen p + s)%Z) 0%Z ps.
+  Lemma total_len_nonneg ps : (0 <= total_len ps)%Z.
+  Proof. induction ps as [|p ps IH]; cbn [total_len fold_right]; [lia|]. fold (total_len ps). pose proof (zlen_nonneg p). lia. Qed.
+  Lemma total_len_app a b : total_len (a ++ b) = (total_len a + total_len b)%Z.
+  Proof. induction a as [|p a IH]; cbn [app total_len fold_right]; [lia|]. fold (total_len (a ++ b)) (total_len a). lia. Qed.
+
+  Variable B : Z.
+  Variable mult : list F -> list F -> option (list F).
+  Hypothesis Hmult : forall a b, okl a -> okl b -> (zlen a + zlen b <= B)%Z ->
+    exists r, mult a b = Some r /\ okl r /\ (zlen r <= zlen a + zlen b)%Z /\ peq (D r) (pmul (D a) (D b)).
+
+  Lemma chunks2_mul_spec n : forall ps, (length ps <= n)%nat -> Forall okl ps -> (total_len ps <= B)%Z ->
+    exists ps', chunks2_mul mult ps = Some ps' /\ Forall okl ps' /\ (total_len ps' <= total_len ps)%Z /\
+                (2 * length ps' <= length ps + 1)%nat /\ (ps <> [] -> ps' <> []) /\
+                peq (pprod (map D ps')) (pprod (map D ps)).
+  Proof.
+    induction n as [|n IH]; intros ps Hn Hok Hb.
+    - destruct ps; [|cbn [length] in Hn; lia]. exists []. cbn. repeat split; try lia; try constructor; try reflexivity. intros X; exact X.
+    - destruct ps as [|a [|b r]].
+      + exists []. cbn. repeat split; try lia; try constructor; try reflexivity. intros X; exact X.
+      + exists [a]. cbn [chunks2_mul]. repeat split; try (cbn; lia); try assumption; try reflexivity. intros _; discriminate.
+      + inversion Hok as [|? ? Ha Hok1]; subst. inversion Hok1 as [|? ? Hb' Hr]; subst.
+        cbn [total_len fold_right] in Hb. fold (total_len r) in Hb. pose proof (total_len_nonneg r) as Tr.
+        destruct (Hmult a b Ha Hb' ltac:(lia)) as [p [P1 [P2 [P3 P4]]]].
+        destruct (IH r ltac:(cbn [length] in Hn; lia) Hr ltac:(pose proof (zlen_nonneg a); pose proof (zlen_nonneg b); lia))
+          as [t [T1 [T2 [T3 [T4 [T5 T6]]]]]].
+        cbn [chunks2_mul]. rewrite P1, T1. exists (p :: t).
+        split; [reflexivity|]. split; [constructor; assumption|].
+        split; [cbn [total_len fold_right]; fold (total_len t) (total_len r); lia|].
+        split; [cbn [length]; lia|]. split; [intros _; discriminate|].
+        cbn [map]. rewrite !pprod_cons, T6, P4. symmetry. apply pmul_assoc.
+  Qed.
+  Lemma batch_go_spec fuel : forall ps, ps <> [] -> (length ps <= fuel)%nat -> Forall okl ps -> (total_len ps <= B)%Z ->
+    exists r, batch_go mult fuel ps = Some r /\ okl r /\ (zlen r <= total_len ps)%Z /\ peq (D r) (pprod (map D ps)).
+  Proof.
+    induction fuel as [|fuel IH]; intros ps Hne Hf Hok Hb.
+    - destruct ps; [congruence|cbn [length] in Hf; lia].
+    - destruct ps as [|p [|q r]]; [congruence| |].
+      + exists p. cbn [batch_go]. split; [reflexivity|]. inversion Hok; subst. split; [assumption|].
+        split; [cbn [total_len fold_right]; lia|]. cbn [map]. rewrite pprod_cons, pprod_nil. symmetry. apply pmul_1_r.
+      + destruct (chunks2_mul_spec (length (p :: q :: r)) (p :: q :: r) (le_n _) Hok Hb) as [ps' [C1 [C2 [C3 [C4 [C5 C6]]]]]].
+        cbn [batch_go]. cbn [batch_go] in IH. rewrite C1.
+        destruct (IH ps' (C5 ltac:(discriminate)) ltac:(cbn [length] in *; lia) C2 ltac:(lia)) as [x [X1 [X2 [X3 X4]]]].
+        exists x. split; [exact X1|]. split; [exact X2|]. split; [lia|]. rewrite X4. exact C6.
+  Qed.
+  (* batch_multiply: terminates (fuel = number of factors suffices) and returns the product of the list *)
+  Theorem batch_multiply_with_spec ps : Forall okl ps -> (total_len ps <= B)%Z ->
+    exists r, poly_batch_multiply_with o mult ps = Some r /\ okl r /\ (zlen r <= Z.max 1 (total_len ps))%Z /\
+              peq (D r) (pprod (map D ps)).
+  Proof.
+    intros Hok Hb. unfold poly_batch_multiply_with. destruct ps as [|p ps].
+    - exists (poly_one o). split; [reflexivity|]. split; [apply (one_ok o fk ok den H)|]. split; [cbn; lia|].
+      rewrite (one_D o fk ok den H). reflexivity.
+    - destruct (batch_go_spec (length (p :: ps)) (p :: ps) ltac:(discriminate) (le_n _) Hok Hb) as [r [R1 [R2 [R3 R4]]]].
+      exists r. split; [exact R1|]. split; [exact R2|]. split; [lia|exact R4].
+  Qed.
+
+  (* ---- slice::chunks *)
+  Lemma chunks_go_concat {A} fuel n (l : list A) : (1 <= n)%nat -> (length l <= fuel)%nat -> concat (chunks_go fuel n l) = l.
+  Proof.
+    intros Hn. revert l. induction fuel as [|fuel IH]; intros l Hf.
+    - destruct l; [reflexivity|cbn [length] in Hf; lia].
+    - destruct l as [|x l]; [reflexivity|]. cbn [chunks_go concat]. rewrite IH.
+      + apply firstn_skipn.
+      + rewrite skipn_length. cbn [length] in *. lia.
+  Qed.
+  Lemma chunks_go_length {A} fuel n (l : list A) : (2 <= n)%nat -> (length l <= fuel)%nat ->
+    (2 * length (chunks_go fuel n l) <= length l + 1)%nat /\ (l <> [] -> chunks_go fuel n l <> []).
+  Proof.
+    intros Hn. revert l. induction fuel as [|fuel IH]; intros l Hf.
+    - destruct l; [cbn; split; [lia|congruence]|cbn [length] in Hf; lia].
+    - destruct l as [|x l]; [cbn; split; [lia|congruence]|]. cbn [chunks_go]. split; [|discriminate].
+      destruct (IH (skipn n (x :: l))) as [I1 _]; [rewrite skipn_length; cbn [length] in *; lia|].
+      cbn [length]. rewrite skipn_length in I1. cbn [length] in I1. lia.
+  Qed.
+  Lemma Forall_concat_chunks {A} (P : A -> Prop) fuel n (l : list A) : Forall P l -> Forall (Forall P) (chunks_go fuel n l).
+  Proof.
+    revert l. induction fuel as [|fuel IH]; intros l Hl; [constructor|]. destruct l as [|x l]; [constructor|].
+    cbn [chunks_go]. constructor; [apply Forall_firstn; exact Hl|apply IH; apply Forall_skipn; exact Hl].
+  Qed.
+  Lemma total_len_concat (cs : list (list (list F))) :
+    total_len (concat cs) = fold_right (fun c s => (total_len c + s)%Z) 0%Z cs.
+  Proof. induction cs as [|c cs IH]; [reflexivity|]. cbn [concat fold_right]. rewrite total_len_app, IH. reflexivity. Qed.
+  Lemma pprod_concat (cs : list (list (list K))) : peq (pprod (concat cs)) (pprod (map pprod cs)).
+  Proof.
+    induction cs as [|c cs IH]; [reflexivity|]. cbn [concat map]. rewrite pprod_app, pprod_cons, IH. reflexivity.
+  Qed.
+
+  Variable batch : list (list F) -> option (list F).
+  Hypothesis Hbatch : forall ps, Forall okl ps -> (total_len ps <= B)%Z ->
+    exists r, batch ps = Some r /\ okl r /\ (zlen r <= Z.max 1 (total_len ps))%Z /\ peq (D r) (pprod (map D ps)).
+
+  Lemma map_opt_batch_spec (cs : list (list (list F))) : Forall (Forall okl) cs -> Forall (fun c => c <> []) cs ->
+    Forall (fun c => Forall (fun p => p <> []) c) cs ->
+    (fold_right (fun c s => (total_len c + s)%Z) 0%Z cs <= B)%Z ->
+    exists ps', map_opt batch cs = Some ps' /\ Forall okl ps' /\ length ps' = length cs /\
+                (total_len ps' <= fold_right (fun c s => (total_len c + s)%Z) 0%Z cs)%Z /\
+                Forall (fun p => p <> []) ps' /\
+                peq (pprod (map D ps')) (pprod (map pprod (map (map D) cs))).
+  Proof.
+  Abort.
+End Batch.
